@@ -35,7 +35,7 @@ REL = {"o_eq": ("eq", "eq"), "o_ne": ("eq", "ne"), "o_lt": ("lt", "lt"), "o_le":
        "o_lin": ("eq", "eq"), "o_teq": ("eq", "eq"), "o_tget": ("hash", "get"), "o_dup": ("hash", "dup"),
        "rust_eq": ("eq", "eq"), "rust_cmp": ("lt", "cmp")}
 TYPE_OF = {"int": "int", "bigint": "int", "float": "float", "str": "string", "bool": "bool", "none": "NoneType",
-           "tuple": "tuple", "list": "list", "struct": "struct", "dict": "dict", "set": "set", "range": "range"}
+           "tuple": "tuple", "list": "list", "struct": "struct", "dict": "dict", "set": "set", "range": "range", "rec": "record", "ev": "enum"}
 
 
 class _R:
